@@ -63,7 +63,6 @@ func newFanoutCtx(p *model.Prog) *fanoutCtx {
 // instruction (nil = rule holds).
 func (c *fanoutCtx) unflushedPathTo(fn *ssa.Function, target ssa.Instruction, base ssa.Value) ssa.Instruction {
 	q := model.PathQuery{
-		SameIteration: true,
 		Stop: func(in ssa.Instruction) bool {
 			ci, ok := in.(ssa.CallInstruction)
 			if !ok || !model.SameFunc(model.CalleeObj(ci.Common()), c.flushObj) {
@@ -88,6 +87,7 @@ func (c *fanoutCtx) unflushedPathTo(fn *ssa.Function, target ssa.Instruction, ba
 	}
 	if n := iterOrigin(base); n != nil {
 		q.FromBlock = n.Block()
+		q.LoopHeader = n.Block()
 	}
 	return q.Find(fn)
 }
